@@ -266,8 +266,67 @@ fn zst_clone(c: &mut Ctx, rng: &mut Rng) {
     c.evaluations += 1;
 }
 
+/// clone / clone_from of very large sparse tables (2^22..2^27 buckets) holding a few elements whose probes wrap around
+/// the end of the table: the copy must find every element again (a block-wise copy that forgets the trailing mirror
+/// bytes, or the last partial block, shows as a failed lookup, as `clone != source`, or as an I4 violation).
+fn huge_clone_case(c: &mut Ctx, rng: &mut Rng) {
+    use crate::plan::{Plan, PlanBH};
+    use crate::states::{Coll, SetC};
+    let lg = *rng.pick(&[22u32, 24, 26, 27, 27]);
+    let cap = (1usize << lg) / 8 * 7;
+    let plan = *rng.pick(&[Plan::Tail, Plan::Tail, Plan::Max, Plan::Mixed]);
+    let bh = PlanBH::new(plan, rng.next());
+    let mut d = Json::obj();
+    d.set("case", Json::s(format!("clone/clone_from of a sparse HashSet<P8> with 2^{} buckets, plan {:?}", lg, plan)));
+    c.describe(d);
+    c.evaluations += 1;
+    c.sig_parts(&[11, lg as u64, crate::ctx::prop_salt(&plan.name())]);
+    c.bump("huge_clones");
+    let mut src: SetC<P8> = SetC::with_cap(bh, cap);
+    let n = 20 + rng.below(30) as u32;
+    for id in 0..n {
+        src.put(id, 1);
+    }
+    for id in 0..n {
+        if id % 4 == 1 {
+            src.del(id);
+        }
+    }
+    let ids: Vec<u32> = src.contents().iter().map(|e| e.0).collect();
+    let what = format!("HashSet<P8> 2^{} buckets ({:?})", lg, plan);
+    let check = |what: &str, copy: &SetC<P8>| {
+        crate::check!(copy.len() == ids.len(), "{}: the copy has len() {} , the source {}", what, copy.len(), ids.len());
+        let missing: Vec<u32> = ids.iter().copied().filter(|id| !copy.has(*id)).take(4).collect();
+        crate::check!(missing.is_empty(), "{}: the copy does not find {:?} (of {} elements)", what, missing, ids.len());
+        crate::check!(copy.0 == src.0 && src.0 == copy.0, "{}: the copy is not == the source", what);
+        crate::check!(copy.0.iter().count() == ids.len(), "{}: the copy yields {} elements", what, copy.0.iter().count());
+    };
+    let cl = SetC(src.0.clone());
+    check(&format!("{} clone()", what), &cl);
+    cl.validate(&what);
+    drop(cl);
+    // clone_from into a table of the same size that holds other elements (allocation reused) ...
+    let mut t: SetC<P8> = SetC::with_cap(bh, cap);
+    for id in 1000..1010 {
+        t.put(id, 2);
+    }
+    t.0.clone_from(&src.0);
+    check(&format!("{} clone_from (same bucket count)", what), &t);
+    drop(t);
+    // ... and into a small one (new allocation)
+    let mut t: SetC<P8> = SetC::with_cap(bh, 3);
+    t.put(7, 2);
+    t.0.clone_from(&src.0);
+    check(&format!("{} clone_from (smaller target)", what), &t);
+    t.validate(&what);
+}
+
 pub fn run(c: &mut Ctx) {
     c.run_scenarios(|c, idx, rng| {
+        if crate::util::mix(idx ^ 0xc11) % 8000 == 0 && !crate::util::slow_lane() && c.lane != "asan" {
+            huge_clone_case(c, rng);
+            return;
+        }
         let n = RECIPES.len() as u64;
         let tr = RECIPES[((crate::util::mix(idx) / 8) % n) as usize];
         let sr = RECIPES[((crate::util::mix(idx) / (8 * n)) % n) as usize];
